@@ -1,5 +1,6 @@
 (* C17 - facts about the key processor part of the model (loop / send /
-   process_q): fuel, conservation of key presses, phase monotonicity. *)
+   deliver / process_q): fuel, conservation of key presses, phase
+   monotonicity, reports never enter the key buffer. *)
 From Coq Require Import ZArith List Bool Lia.
 From PTK Require Import Lib.Py Model.C03_Vt100Parser Model.C17_Typeahead.
 Import ListNotations.
@@ -11,15 +12,19 @@ Variable lookup_scan : E -> list kp -> option bid.
 Variable waits : E -> list kp -> bool.
 Variable eff : bid -> list kp -> E -> E * option res.
 Variable is_cprh : bid -> bool.
+Variable cpr_lookup : E -> option bid.
 
 Notation core := (core E bid res).
 Notation call := (call eff is_cprh).
 Notation scan := (@scan E bid res lookup_scan).
 Notation loop := (loop lookup lookup_scan waits eff is_cprh).
 Notation send := (send lookup lookup_scan waits eff is_cprh).
-Notation process_q := (process_q lookup lookup_scan waits eff is_cprh).
+Notation handle_cpr := (handle_cpr eff is_cprh cpr_lookup).
+Notation deliver := (deliver lookup lookup_scan waits eff is_cprh cpr_lookup).
+Notation process_q := (process_q lookup lookup_scan waits eff is_cprh cpr_lookup).
 
-Definition acc (c : core) : list kp := logged c ++ kbuf c.
+(* every key press that left the queue and was not pushed back: logged, or still in the key buffer *)
+Definition acc (c : core) : list kp := logged c ++ kbuf c ++ pb c.
 
 Lemma logged_cons (e : ev bid) (c : core) :
   logged (add_ev e c) = logged c ++ ev_keys e.
@@ -33,9 +38,6 @@ Proof.
   unfold logged, call; cbn [rlog rev].
   rewrite map_app, concat_app; cbn [map concat ev_keys]. now rewrite app_nil_r.
 Qed.
-
-Lemma logged_set_kbuf b (c : core) : logged (set_kbuf b c) = logged c.
-Proof. reflexivity. Qed.
 
 Lemma scan_bounds n (c : core) b i : scan n c = Some (b, i) -> (1 <= i <= n)%nat.
 Proof.
@@ -57,45 +59,75 @@ Qed.
 (* ---------------------------------------------------------------------- *)
 (* conservation through one activation of the coroutine *)
 
+Lemma acc_push_back (c : core) : acc (push_back c) = acc c.
+Proof. unfold acc, push_back, logged; cbn [rlog kbuf pb app]. reflexivity. Qed.
+
+Lemma retry_acc (k : core -> core) (c1 : core) :
+  (forall c, acc (k c) = acc c) -> acc (retry k c1) = acc c1.
+Proof. intros H. unfold retry. destruct (late c1); [apply acc_push_back|apply H]. Qed.
+
 Lemma loop_acc fuel : forall fl (c : core), acc (loop fuel fl c) = acc c.
 Proof.
   induction fuel as [|f IH]; intros fl c; cbn [C17_Typeahead.loop].
   - destruct (kbuf c); reflexivity.
   - destruct (kbuf c) as [|k0 tl0] eqn:KB; [reflexivity|].
-    destruct (cph c) eqn:PH.
-    + (* CRun *)
-      destruct (negb fl && waits (est c) (k0 :: tl0)); [reflexivity|].
-      destruct (lookup (est c) (k0 :: tl0)) as [b|].
-      * unfold acc; cbn [kbuf set_kbuf]. rewrite logged_set_kbuf, logged_call, KB, app_nil_r. reflexivity.
-      * destruct (scan (length (k0 :: tl0)) c) as [[b i]|].
-        -- rewrite IH. unfold acc. rewrite logged_set_kbuf, logged_call. cbn [kbuf set_kbuf].
-           rewrite KB, <- app_assoc, firstn_skipn. reflexivity.
-        -- rewrite IH. unfold acc. rewrite logged_set_kbuf, logged_cons. cbn [kbuf set_kbuf ev_keys].
-           rewrite KB, <- app_assoc. reflexivity.
-    + (* CDone *)
-      destruct (negb fl && waits (est c) (k0 :: tl0)); [reflexivity|].
-      destruct (lookup (est c) (k0 :: tl0)) as [b|].
-      * unfold acc; cbn [kbuf set_kbuf]. rewrite logged_set_kbuf, logged_call, KB, app_nil_r. reflexivity.
-      * destruct (scan (length (k0 :: tl0)) c) as [[b i]|].
-        -- rewrite IH. unfold acc. rewrite logged_set_kbuf, logged_call. cbn [kbuf set_kbuf].
-           rewrite KB, <- app_assoc, firstn_skipn. reflexivity.
-        -- rewrite IH. unfold acc. rewrite logged_set_kbuf, logged_cons. cbn [kbuf set_kbuf ev_keys].
-           rewrite KB, <- app_assoc. reflexivity.
-    + reflexivity.
+    assert (X : forall b, acc (set_kbuf [] (call b (k0 :: tl0) c)) = acc c).
+    { intros b. unfold acc; cbn [kbuf set_kbuf pb C17_Typeahead.call].
+      change (logged (set_kbuf [] (call b (k0 :: tl0) c))) with (logged (call b (k0 :: tl0) c)).
+      rewrite logged_call, KB, <- app_assoc. reflexivity. }
+    assert (Y : forall b i, acc (retry (loop f false) (set_kbuf (skipn i (k0 :: tl0)) (call b (firstn i (k0 :: tl0)) c))) = acc c).
+    { intros b i. rewrite retry_acc; [|intros; apply IH]. unfold acc; cbn [kbuf set_kbuf pb C17_Typeahead.call].
+      change (logged (set_kbuf (skipn i (k0 :: tl0)) (call b (firstn i (k0 :: tl0)) c))) with (logged (call b (firstn i (k0 :: tl0)) c)).
+      rewrite logged_call, KB, <- app_assoc, (app_assoc (firstn i (k0 :: tl0))), firstn_skipn. reflexivity. }
+    assert (Z : acc (retry (loop f false) (set_kbuf tl0 (add_ev (@EDrop bid (late c) k0) c))) = acc c).
+    { rewrite retry_acc; [|intros; apply IH]. unfold acc; cbn [kbuf set_kbuf pb add_ev].
+      change (logged (set_kbuf tl0 (add_ev (@EDrop bid (late c) k0) c))) with (logged (add_ev (@EDrop bid (late c) k0) c)).
+      rewrite logged_cons, KB, <- app_assoc. reflexivity. }
+    destruct (cph c) eqn:PH; [| |reflexivity].
+    + destruct (negb fl && waits (est c) (k0 :: tl0)); [reflexivity|].
+      destruct (lookup (est c) (k0 :: tl0)) as [b|]; [apply X|].
+      destruct (scan (length (k0 :: tl0)) c) as [[b i]|]; [apply Y|apply Z].
+    + destruct (negb fl && waits (est c) (k0 :: tl0)); [reflexivity|].
+      destruct (lookup (est c) (k0 :: tl0)) as [b|]; [apply X|].
+      destruct (scan (length (k0 :: tl0)) c) as [[b i]|]; [apply Y|apply Z].
 Qed.
 
-Lemma send_acc_key k (c : core) : acc (send (IKey k) c) = acc c ++ [k].
+Lemma send_acc_key k (c : core) : pb c = [] -> acc (send (IKey k) c) = acc c ++ [k].
 Proof.
-  unfold C17_Typeahead.send. rewrite loop_acc. unfold acc.
-  destruct (is_cpr k && negb (cpr_alone lookup waits is_cprh c k)); cbn [kbuf set_kbuf set_bad];
-    rewrite app_assoc; reflexivity.
+  intros P. unfold C17_Typeahead.send. rewrite loop_acc. unfold acc; cbn [kbuf set_kbuf pb].
+  change (logged (set_kbuf (kbuf c ++ [k]) c)) with (logged c). rewrite P, !app_nil_r, app_assoc. reflexivity.
 Qed.
 
 Lemma send_acc_flush (c : core) : acc (send IFlush c) = acc c.
 Proof. unfold C17_Typeahead.send. apply loop_acc. Qed.
 
+Lemma nc_app a b : nc (a ++ b) = nc a ++ nc b.
+Proof. unfold nc. apply filter_app. Qed.
+
+Lemma nc_cpr k : is_cpr k = true -> nc [k] = [].
+Proof. unfold nc; cbn [filter]. intros ->. reflexivity. Qed.
+
+Lemma nc_single k : is_cpr k = false -> nc [k] = [k].
+Proof. unfold nc; cbn [filter]. intros ->. reflexivity. Qed.
+
+Lemma handle_cpr_acc k (c : core) : is_cpr k = true -> nc (acc (handle_cpr k c)) = nc (acc c).
+Proof.
+  intros CK. unfold C17_Typeahead.handle_cpr. destruct (cpr_lookup (est c)) as [b|]; [|reflexivity].
+  unfold acc. cbn [kbuf pb C17_Typeahead.call]. rewrite logged_call, !nc_app, (nc_cpr k CK), app_nil_r. reflexivity.
+Qed.
+
+Lemma deliver_acc it (c : core) : pb c = [] ->
+  nc (acc (deliver it c)) = nc (acc c) ++ nc (ikeys [it]).
+Proof.
+  intros P. destruct it as [k|]; cbn [C17_Typeahead.deliver ikeys].
+  - destruct (is_cpr k) eqn:CK.
+    + rewrite (handle_cpr_acc k c CK), (nc_cpr k CK), app_nil_r. reflexivity.
+    + rewrite (send_acc_key k c P), nc_app. reflexivity.
+  - rewrite send_acc_flush. cbn. now rewrite app_nil_r.
+Qed.
+
 (* ---------------------------------------------------------------------- *)
-(* the result, once set, stays set (or the second exit() breaks) *)
+(* the result, once set, stays set (or a second exit() breaks) *)
 
 Definition not_run (c : core) : Prop := cph c <> CRun res.
 
@@ -105,6 +137,10 @@ Proof.
   destruct (snd (eff b ks (est c))); [|exact H].
   destruct (cph c); congruence.
 Qed.
+
+Lemma retry_not_run (k : core -> core) (c1 : core) :
+  (forall c, not_run c -> not_run (k c)) -> not_run c1 -> not_run (retry k c1).
+Proof. intros H N. unfold retry. destruct (late c1); [exact N|apply H; exact N]. Qed.
 
 Lemma loop_not_run fuel : forall fl (c : core), not_run c -> not_run (loop fuel fl c).
 Proof.
@@ -116,34 +152,69 @@ Proof.
     destruct (lookup (est c) (k0 :: tl0)) as [b|].
     + apply call_not_run with (b := b) (ks := k0 :: tl0) in H. exact H.
     + destruct (scan (length (k0 :: tl0)) c) as [[b i]|].
-      * apply IH. apply call_not_run with (b := b) (ks := firstn i (k0 :: tl0)) in H. exact H.
-      * apply IH. exact H.
+      * apply retry_not_run; [intros; apply IH; assumption|].
+        apply call_not_run with (b := b) (ks := firstn i (k0 :: tl0)) in H. exact H.
+      * apply retry_not_run; [intros; apply IH; assumption|exact H].
 Qed.
 
 Lemma send_not_run it (c : core) : not_run c -> not_run (send it c).
+Proof. intros H. destruct it as [k|]; unfold C17_Typeahead.send; apply loop_not_run; exact H. Qed.
+
+Lemma handle_cpr_not_run k (c : core) : not_run c -> not_run (handle_cpr k c).
 Proof.
-  intros H. destruct it as [k|]; unfold C17_Typeahead.send.
-  - apply loop_not_run. destruct (is_cpr k && negb (cpr_alone lookup waits is_cprh c k)); exact H.
-  - apply loop_not_run. exact H.
+  intros H. unfold C17_Typeahead.handle_cpr. destruct (cpr_lookup (est c)); [apply call_not_run|]; exact H.
+Qed.
+
+Lemma deliver_not_run it (c : core) : not_run c -> not_run (deliver it c).
+Proof.
+  intros H. destruct it as [k|]; cbn [C17_Typeahead.deliver]; [|apply send_not_run; exact H].
+  destruct (is_cpr k); [apply handle_cpr_not_run|apply send_not_run]; exact H.
+Qed.
+
+(* keys are pushed back only when the result is set *)
+Lemma loop_pb_run fuel : forall fl (c : core), cph (loop fuel fl c) = CRun res -> pb (loop fuel fl c) = pb c.
+Proof.
+  induction fuel as [|f IH]; intros fl c H; cbn [C17_Typeahead.loop] in *.
+  - destruct (kbuf c); reflexivity.
+  - destruct (kbuf c) as [|k0 tl0] eqn:KB; [reflexivity|].
+    assert (R : forall c1, pb c1 = pb c -> cph (retry (loop f false) c1) = CRun res -> pb (retry (loop f false) c1) = pb c).
+    { intros c1 P1 H1. unfold retry in *. destruct (late c1) eqn:L.
+      - unfold late in L. cbn [push_back cph] in H1. rewrite H1 in L. discriminate.
+      - rewrite IH; assumption. }
+    destruct (cph c) eqn:PH; [| |reflexivity].
+    + destruct (negb fl && waits (est c) (k0 :: tl0)); [reflexivity|].
+      destruct (lookup (est c) (k0 :: tl0)) as [b|]; [reflexivity|].
+      destruct (scan (length (k0 :: tl0)) c) as [[b i]|]; apply R; auto.
+    + destruct (negb fl && waits (est c) (k0 :: tl0)); [reflexivity|].
+      destruct (lookup (est c) (k0 :: tl0)) as [b|]; [reflexivity|].
+      destruct (scan (length (k0 :: tl0)) c) as [[b i]|]; apply R; auto.
+Qed.
+
+Lemma deliver_pb_run it (c : core) : cph (deliver it c) = CRun res -> pb (deliver it c) = pb c.
+Proof.
+  destruct it as [k|]; cbn [C17_Typeahead.deliver].
+  - destruct (is_cpr k).
+    + intros _. unfold C17_Typeahead.handle_cpr. destruct (cpr_lookup (est c)); reflexivity.
+    + unfold C17_Typeahead.send. intros H. rewrite loop_pb_run; [reflexivity|exact H].
+  - unfold C17_Typeahead.send. intros H. rewrite loop_pb_run; [reflexivity|exact H].
 Qed.
 
 (* ---------------------------------------------------------------------- *)
 (* fuel *)
-
-Lemma call_oof b ks (c : core) : oof (call b ks c) = oof c.
-Proof. reflexivity. Qed.
 
 Lemma loop_oof fuel : forall fl (c : core),
   (length (kbuf c) < fuel)%nat -> oof (loop fuel fl c) = oof c.
 Proof.
   induction fuel as [|f IH]; intros fl c H; [lia|]. cbn [C17_Typeahead.loop].
   destruct (kbuf c) as [|k0 tl0] eqn:KB; [reflexivity|].
+  assert (R : forall c1, oof c1 = oof c -> (length (kbuf c1) < f)%nat -> oof (retry (loop f false) c1) = oof c).
+  { intros c1 O1 L1. unfold retry. destruct (late c1); [exact O1|]. rewrite IH; assumption. }
   assert (G : forall b i, scan (length (k0 :: tl0)) c = Some (b, i) ->
-          oof (loop f false (set_kbuf (skipn i (k0 :: tl0)) (call b (firstn i (k0 :: tl0)) c))) = oof c).
-  { intros b i S. apply scan_bounds in S. rewrite IH; [reflexivity|].
+          oof (retry (loop f false) (set_kbuf (skipn i (k0 :: tl0)) (call b (firstn i (k0 :: tl0)) c))) = oof c).
+  { intros b i S. apply scan_bounds in S. apply R; [reflexivity|].
     cbn [kbuf set_kbuf]. rewrite skipn_length. cbn [length] in *. lia. }
-  assert (D : oof (loop f false (set_kbuf tl0 (add_ev (@EDrop bid (late c) k0) c))) = oof c).
-  { rewrite IH; [reflexivity|]. cbn [kbuf set_kbuf]. cbn [length] in H. lia. }
+  assert (D : oof (retry (loop f false) (set_kbuf tl0 (add_ev (@EDrop bid (late c) k0) c))) = oof c).
+  { apply R; [reflexivity|]. cbn [kbuf set_kbuf]. cbn [length] in H. lia. }
   destruct (cph c).
   - destruct (negb fl && waits (est c) (k0 :: tl0)); [reflexivity|].
     destruct (lookup (est c) (k0 :: tl0)); [reflexivity|].
@@ -157,30 +228,39 @@ Qed.
 Lemma send_oof it (c : core) : oof (send it c) = oof c.
 Proof.
   destruct it as [k|]; unfold C17_Typeahead.send.
-  - rewrite loop_oof.
-    + destruct (is_cpr k && negb (cpr_alone lookup waits is_cprh c k)); reflexivity.
-    + destruct (is_cpr k && negb (cpr_alone lookup waits is_cprh c k)); cbn [kbuf set_kbuf set_bad];
-        rewrite app_length; cbn [length]; lia.
+  - rewrite loop_oof; [reflexivity|]. cbn [kbuf set_kbuf]. rewrite app_length; cbn [length]; lia.
   - apply loop_oof. lia.
+Qed.
+
+Lemma deliver_oof it (c : core) : oof (deliver it c) = oof c.
+Proof.
+  destruct it as [k|]; cbn [C17_Typeahead.deliver]; [|apply send_oof].
+  destruct (is_cpr k); [|apply send_oof].
+  unfold C17_Typeahead.handle_cpr. destruct (cpr_lookup (est c)); reflexivity.
 Qed.
 
 (* ---------------------------------------------------------------------- *)
 (* process_keys *)
 
-Lemma nc_app a b : nc (a ++ b) = nc a ++ nc b.
-Proof. unfold nc. apply filter_app. Qed.
-
-Lemma nc_cpr k : is_cpr k = true -> nc [k] = [].
-Proof. unfold nc; cbn [filter]. intros ->. reflexivity. Qed.
-
 Lemma process_q_oof q : forall c : core, oof (fst (process_q q c)) = oof c.
 Proof.
   induction q as [|it q IH]; intros c; cbn [C17_Typeahead.process_q]; [reflexivity|].
   destruct (cph c); [| |reflexivity].
-  - rewrite IH. apply send_oof.
+  - cbn [fst]. rewrite IH. cbn [oof clear_pb]. apply deliver_oof.
   - destruct (item_is_cpr it).
-    + rewrite IH. apply send_oof.
+    + rewrite IH. apply deliver_oof.
     + cbn [fst]. apply IH.
+Qed.
+
+Lemma process_q_pb q : forall c : core, pb c = [] -> pb (fst (process_q q c)) = [].
+Proof.
+  induction q as [|it q IH]; intros c P; cbn [C17_Typeahead.process_q]; [exact P|].
+  destruct (cph c) eqn:PH; [| |exact P].
+  - cbn [fst]. apply IH. reflexivity.
+  - destruct (item_is_cpr it) eqn:CI.
+    + apply IH. destruct it as [k|]; [|discriminate]. cbn [item_is_cpr] in CI. cbn [C17_Typeahead.deliver]. rewrite CI.
+      unfold C17_Typeahead.handle_cpr. destruct (cpr_lookup (est c)); exact P.
+    + cbn [fst]. apply IH. exact P.
 Qed.
 
 (* once the result is set only reports leave the queue *)
@@ -192,8 +272,9 @@ Proof.
   destruct (cph c) eqn:PH; [exfalso; apply H; exact PH| |auto].
   destruct it as [k|]; cbn [item_is_cpr].
   - destruct (is_cpr k) eqn:CK.
-    + destruct (IH (send (IKey k) c) (send_not_run (IKey k) c H)) as (A & B & C).
-      rewrite A, B, send_acc_key, nc_app, (nc_cpr k CK), app_nil_r.
+    + cbn [C17_Typeahead.deliver]. rewrite CK.
+      destruct (IH (handle_cpr k c) (handle_cpr_not_run k c H)) as (A & B & C).
+      rewrite A, B, (handle_cpr_acc k c CK).
       cbn [ikeys]. change (k :: ikeys q) with ([k] ++ ikeys q). rewrite nc_app, (nc_cpr k CK). auto.
     + destruct (IH c H) as (A & B & C). cbn [fst snd ikeys].
       change (k :: ikeys (snd (process_q q c))) with ([k] ++ ikeys (snd (process_q q c))).
@@ -202,15 +283,43 @@ Proof.
   - destruct (IH c H) as (A & B & C). cbn [fst snd ikeys]. auto.
 Qed.
 
-Lemma process_q_acc q : forall c : core,
+Lemma process_q_run_back q : forall c : core, cph (fst (process_q q c)) = CRun res -> cph c = CRun res.
+Proof.
+  intros c H. destruct (cph c) eqn:PH; [reflexivity| |];
+    exfalso; refine (proj2 (proj2 (process_q_done q c _)) H); unfold not_run; congruence.
+Qed.
+
+Lemma ikeys_app a b : ikeys (a ++ b) = ikeys a ++ ikeys b.
+Proof. induction a as [|[k|] a IH]; cbn [ikeys app]; rewrite ?IH; reflexivity. Qed.
+Lemma ikeys_map ks : ikeys (map IKey ks) = ks.
+Proof. induction ks as [|k ks IH]; cbn [ikeys map]; rewrite ?IH; reflexivity. Qed.
+
+Lemma process_q_acc q : forall c : core, pb c = [] ->
   nc (acc (fst (process_q q c))) ++ nc (ikeys (snd (process_q q c))) = nc (acc c) ++ nc (ikeys q).
 Proof.
-  induction q as [|it q IH]; intros c; cbn [C17_Typeahead.process_q]; [reflexivity|].
+  induction q as [|it q IH]; intros c P; cbn [C17_Typeahead.process_q]; [reflexivity|].
   destruct (cph c) eqn:PH.
-  - rewrite IH. destruct it as [k|]; cbn [ikeys].
-    + rewrite send_acc_key, nc_app, <- app_assoc.
-      change (k :: ikeys q) with ([k] ++ ikeys q). rewrite (nc_app [k]). reflexivity.
-    + rewrite send_acc_flush. reflexivity.
+  - cbn [fst snd]. set (c' := deliver it c).
+    rewrite ikeys_app, ikeys_map, nc_app.
+    assert (DA : nc (acc c') = nc (acc c) ++ nc (ikeys [it])) by (apply deliver_acc; exact P).
+    assert (SPLIT : nc (acc c') = nc (acc (clear_pb c')) ++ nc (pb c')).
+    { unfold acc; cbn [kbuf pb clear_pb]. change (logged (clear_pb c')) with (logged c').
+      rewrite !nc_app. change (nc []) with (@nil kp). rewrite app_nil_r, <- app_assoc. reflexivity. }
+    destruct (cph c') eqn:PC.
+    + (* still running: nothing was pushed back *)
+      assert (PB : pb c' = []) by (unfold c'; rewrite deliver_pb_run; [exact P|exact PC]).
+      pose proof (IH (clear_pb c') eq_refl) as IH'.
+      rewrite PB in *. change (nc []) with (@nil kp) in *. rewrite app_nil_r in SPLIT. cbn [app].
+      rewrite IH', <- SPLIT, DA.
+      change (it :: q) with ([it] ++ q). rewrite ikeys_app, nc_app, <- app_assoc. reflexivity.
+    + assert (NR : not_run (clear_pb c')) by (unfold not_run; cbn [cph clear_pb]; congruence).
+      destruct (process_q_done q (clear_pb c') NR) as (A & B & _). rewrite A, B.
+      rewrite app_assoc, <- SPLIT, DA.
+      change (it :: q) with ([it] ++ q). rewrite ikeys_app, nc_app, <- app_assoc. reflexivity.
+    + assert (NR : not_run (clear_pb c')) by (unfold not_run; cbn [cph clear_pb]; congruence).
+      destruct (process_q_done q (clear_pb c') NR) as (A & B & _). rewrite A, B.
+      rewrite app_assoc, <- SPLIT, DA.
+      change (it :: q) with ([it] ++ q). rewrite ikeys_app, nc_app, <- app_assoc. reflexivity.
   - assert (H : not_run c) by (unfold not_run; congruence).
     pose proof (process_q_done (it :: q) c H) as (A & B & _).
     cbn [C17_Typeahead.process_q] in A, B. rewrite PH in A, B. rewrite A, B. reflexivity.
